@@ -1196,6 +1196,43 @@ def _prf(kind, args, seed):
     return rnd.uniform(0.3, 1.7)
 
 
+def _linalg_ok(a):
+    n = len(a.args[0])
+    if a.kind == "fn:eigvalsh":
+        return any(n == m * (m + 1) // 2 for m in (1, 2, 3, 4, 6)) and len(a.args) == 2 and isinstance(a.args[1], int)
+    return any(n == m * m for m in (1, 2, 3, 4, 6))
+
+
+def _linalg_value(kind, args, val):
+    """Library functions with a unique value are evaluated exactly at a witness point (eigenvalues in ascending order, determinant, inverse,
+    singular values in descending order); eigenvectors and singular vectors (defined up to sign / rotation in degenerate cases) stay uninterpreted."""
+    import numpy as _np
+    vs = [val(x) for x in args[0]]
+    if any(v != v or abs(v) == float("inf") for v in vs):
+        return float("nan")
+    try:
+        if kind == "fn:eigvalsh":
+            m = next(m for m in (1, 2, 3, 4, 6) if m * (m + 1) // 2 == len(vs))
+            M = _np.zeros((m, m))
+            q = 0
+            for i in range(m):
+                for j in range(i + 1):
+                    M[i, j] = M[j, i] = vs[q]
+                    q += 1
+            return float(_np.linalg.eigvalsh(M)[args[1]])
+        m = next(m for m in (1, 2, 3, 4, 6) if m * m == len(vs))
+        M = _np.array(vs, dtype=float).reshape(m, m)
+        if kind == "fn:det":
+            return float(_np.linalg.det(M))
+        if kind == "fn:inv":
+            return float(_np.linalg.inv(M)[args[1], args[2]])
+        if kind == "fn:svd.S":
+            return float(_np.linalg.svd(M, compute_uv=False)[args[1]])
+    except Exception:
+        return float("nan")
+    return float("nan")
+
+
 def evalnum(e):
     """Numeric value of a CLOSED normal form (constants, pi, elementary functions, selections on decidable comparisons).
     Raises AlgError if the form has a free symbol or an uninterpreted function: it is an evaluation, not a witness."""
@@ -1294,6 +1331,14 @@ def evalf(e, env=None, seed=0, strict=False, tie=0.0):
                 v = math.asin(x) if -1 <= x <= 1 else float("nan")
             elif k == "fn:arctan":
                 v = math.atan(val(a.args[0]))
+            elif k in ("fn:eigvalsh", "fn:det", "fn:inv", "fn:svd.S") and a.args and isinstance(a.args[0], tuple) and _linalg_ok(a):
+                v = _linalg_value(k, a.args, val)
+            elif k in ("fn:cosh", "fn:sinh", "fn:tanh") and len(a.args) == 1:
+                x = val(a.args[0])
+                try:
+                    v = {"fn:cosh": math.cosh, "fn:sinh": math.sinh, "fn:tanh": math.tanh}[k](x)
+                except OverflowError:
+                    v = float("inf")
             elif k == "fn:log":
                 x = val(a.args[0])
                 v = math.log(x) if x > 0 else float("nan")
@@ -1381,7 +1426,7 @@ def _guard_leaves(g, acc):
     return acc
 
 
-_POOL = (0.0, 1.0, 2.0, 3.0, 4.0, -1.0, 0.5, -0.5, 1e-17, 1e3)
+_POOL = (0.0, 1.0, 2.0, 3.0, 4.0, -1.0, 0.5, -0.5, 1e-17, 10.0)
 
 
 def guard_worlds(a, b, seed, limit=40):
@@ -1419,7 +1464,7 @@ def guard_worlds(a, b, seed, limit=40):
                     f1 = evalf(d, {s_: x1}, seed)
                     if abs(f1) < 1e-13:
                         break
-                if f1 == f1 and abs(f1) < 1e-11 and abs(x1) < 1e6 and not (s_.kind == "psym" and x1 <= 0):
+                if f1 == f1 and abs(f1) < 1e-11 and abs(x1) < 20 and not (s_.kind == "psym" and x1 <= 0):
                     worlds.append(({s_: x1}, 1e-9, f"boundary of {op} guard", li))
             except (AlgError, ZeroDivisionError, OverflowError):
                 pass
